@@ -101,7 +101,7 @@ def oracles(req, ev, access, prims):
         acc_by_op.setdefault(int(p[0]), []).append(p)
     for m in mods:
         regs = {}   # reg -> (variant, {field: value or None})
-        converted = set()
+        converted = set(); cloned = set(); deserialized = set()
         live = {}   # droppable value label -> count alive
         fields = m["fields"]
 
@@ -170,14 +170,19 @@ def oracles(req, ev, access, prims):
                     hits.append(("C04", f"field {fields[f]['name']} holds {want} but the accessor returned {got}", li))
                     if int(t[1]) in converted:
                         hits.append(("C05", f"after conversion, field {fields[f]['name']} should hold {want} but the accessor returned {got}", li))
+                    if int(t[1]) in cloned:
+                        hits.append(("C16", f"after clone / clone_from, field {fields[f]['name']} should hold {want} but the accessor returned {got}", li))
+                    if int(t[1]) in deserialized:
+                        hits.append(("C15", f"after a serialise/deserialise round trip, field {fields[f]['name']} should hold {want} but the accessor returned {got}", li))
             elif op == "set":
                 v, st = regs[int(t[1])]
                 f = m["variants"][v][int(t[2])]
                 st[f] = t[3]; born(f, t[3])
             elif op == "rename":
                 regs[int(t[2])] = regs.pop(int(t[1]))
-                if int(t[1]) in converted:
-                    converted.add(int(t[2]))
+                for grp in (converted, cloned, deserialized):
+                    if int(t[1]) in grp:
+                        grp.add(int(t[2]))
             elif op == "unpack":
                 v, st = regs.pop(int(t[1]))
                 ids = m["variants"][v]
@@ -232,6 +237,7 @@ def oracles(req, ev, access, prims):
                     if x is not None:
                         born(f, x)
                 regs[nr] = (v, nst)
+                (cloned if op == "clone" else deserialized).add(nr)
             elif op == "clonebomb":
                 v, st = regs[int(t[1])]
                 ids = m["variants"][v]; k = int(t[2])
@@ -262,6 +268,7 @@ def oracles(req, ev, access, prims):
                     dst[f] = x
                     if x is not None:
                         born(f, x)
+                cloned.add(int(t[1]))
         for label, n in live.items():
             if n != 0:
                 hits.append(("C06", f"value {label} alive {n} time(s) at the end of the module (leak)", m["ops"][-1][0] if m["ops"] else m["start"]))
